@@ -60,6 +60,7 @@ type FuncSpec struct {
 	Results  []string
 	Requires []Clause
 	Ensures  []Clause
+	Assumed  []Clause // trusted postcondition clauses (not checked in the body; listed as assumptions)
 	Invs     []Clause
 	Assigns  []string
 	HasAssigns bool
@@ -167,7 +168,7 @@ func (ss *SpecSet) LoadSpecFile(path, pkgPath string) error {
 	var raws []rawClause
 	keywords := map[string]bool{"func": true, "requires": true, "ensures": true, "invariant": true, "assigns": true,
 		"trusted": true, "maypanic": true, "pure": true, "pred": true, "ufn": true, "const": true, "axiom": true,
-		"decreases": true, "opt": true, "hfn": true, "event": true, "evdecl": true, "recfn": true, "lemma": true, "nopanic": true, "end": true}
+		"decreases": true, "opt": true, "hfn": true, "event": true, "evdecl": true, "recfn": true, "assumes": true, "lemma": true, "nopanic": true, "end": true}
 	for i, line := range strings.Split(string(data), "\n") {
 		t := strings.TrimSpace(line)
 		if pkgPath != "" || strings.HasSuffix(path, ".go") {
@@ -227,7 +228,7 @@ func (ss *SpecSet) LoadSpecFile(path, pkgPath string) error {
 			cur = fs
 		case "end":
 			cur = nil
-		case "requires", "ensures", "invariant", "decreases":
+		case "requires", "ensures", "invariant", "decreases", "assumes":
 			if cur == nil {
 				return fail(fmt.Errorf("%s outside func", r.kw))
 			}
@@ -253,6 +254,8 @@ func (ss *SpecSet) LoadSpecFile(path, pkgPath string) error {
 				cur.Ensures = append(cur.Ensures, cl)
 			case "invariant":
 				cur.Invs = append(cur.Invs, cl)
+			case "assumes":
+				cur.Assumed = append(cur.Assumed, cl)
 			}
 		case "assigns":
 			if cur == nil {
